@@ -8,6 +8,7 @@ package main
 
 import (
 	"context"
+	"crypto/sha1"
 	"encoding/json"
 	"fmt"
 	"net/url"
@@ -196,6 +197,13 @@ func init() {
 		res := runInChildren("C16child", cases, outDir)
 		var terms []string
 		seen := map[string]bool{}
+		baseline := map[string][]string{}
+		defer func() {
+			if os.Getenv("VERIF_WRITE_BASELINE") != "" {
+				b, _ := json.MarshalIndent(baseline, "", " ")
+				os.WriteFile(os.Getenv("VERIF_WRITE_BASELINE"), b, 0o644)
+			}
+		}()
 		for i := range cases {
 			c := &cases[i]
 			var o C16Obs
@@ -217,6 +225,7 @@ func init() {
 				continue
 			}
 			key, _ := json.Marshal(c)
+			caseKey := fmt.Sprintf("%x", sha1.Sum(key))
 			if !seen[string(key)] {
 				seen[string(key)] = true
 				meta.Distinct++
@@ -224,9 +233,10 @@ func init() {
 			if len(o.Problems) == 0 {
 				meta.Histogram["equivalent"]++
 			}
+			baseline[caseKey] = append([]string{}, o.Problems...)
 			for _, p := range o.Problems {
 				meta.Histogram["problem:"+p]++
-				meta.GoViolation = append(meta.GoViolation, map[string]any{"signature": p, "cases": []any{c}, "go_observation": o, "judgement": "after InternalizeRefs: " + p})
+				meta.GoViolation = append(meta.GoViolation, map[string]any{"signature": p, "case_key": caseKey, "cases": []any{c}, "go_observation": o, "judgement": "after InternalizeRefs: " + p})
 			}
 		}
 		meta.NCases = len(cases)
@@ -323,6 +333,16 @@ func c16Directed() []LCase {
 		// an external component named like a root component
 		mk(doc("/api/root.json", jobj("schemas", jobj("ext_E", obj(7), "S", obj(1, "items", jobj("$ref", "ext.json#/components/schemas/E")))), nil),
 			doc("/api/ext.json", jobj("schemas", jobj("E", obj(2))), nil)),
+		// a whole-file reference among the root's components and references to elements inside that file
+		mk(doc("/api/root.json", jobj("schemas", jobj("Account", obj(1, "properties", jobj("owner", jobj("$ref", "record.json#/properties/name"), "all", jobj("$ref", "record.json"))),
+			"Record", jobj("$ref", "record.json"), "Zebra", obj(5, "properties", jobj("n", jobj("$ref", "record.json#/properties/name"), "k", jobj("$ref", "record.json#/properties/kind"))))), nil),
+			LFile{URI: "/api/record.json", Single: obj(2, "properties", jobj("name", obj(3), "kind", obj(4)))}),
+		mk(doc("/api/root.json", jobj("responses", jobj("Again", jobj("$ref", "resp.json"), "Plain", jobj("description", "id9", "headers", jobj("H", jobj("$ref", "resp.json#/headers/H"))))),
+			op(jobj("$ref", "resp.json"))),
+			LFile{URI: "/api/resp.json", Single: jobj("x-kind", "response", "description", "id2", "headers", jobj("H", jobj("description", "id3", "schema", obj(4))))}),
+		mk(doc("/api/root.json", jobj("parameters", jobj("A", jobj("name", "a", "in", "query", "description", "id1", "schema", jobj("$ref", "defs.json#/components/schemas/S/properties/x")),
+			"B", jobj("name", "b", "in", "query", "description", "id5", "schema", jobj("$ref", "defs.json#/components/schemas/S"))), "schemas", jobj("S", jobj("$ref", "defs.json#/components/schemas/S"))), nil),
+			doc("/api/defs.json", jobj("schemas", jobj("S", obj(2, "properties", jobj("x", obj(3))))), nil)),
 		// nested: an external schema with internal references of its own
 		mk(doc("/api/root.json", jobj(), op(jobj("description", "id1", "content", jobj("application/json", jobj("schema", jobj("$ref", "sub/deep.json#/components/schemas/D")))))),
 			doc("/api/sub/deep.json", jobj("schemas", jobj("D", obj(2, "properties", jobj("e", jref("schemas", "E"))), "E", obj(3, "items", jobj("$ref", "../one.json")))), nil),
